@@ -25,7 +25,8 @@ pub struct Log {
 impl Log {
     fn step(&mut self, e: E) -> bool {
         self.ev.push(e);
-        self.budget -= 1;
+        // saturating: a traversal that wrongly continues after a refusal must not crash the observer
+        self.budget = self.budget.saturating_sub(1);
         self.budget > 0
     }
 }
